@@ -379,7 +379,13 @@ def setup(ctx: FunctionContext) -> Exec:
         if flamegraph_enabled:
             exec_flamegraph.add(setup_ex.context)
 
-        if err := setup_ex.context.output.error:
+        err = setup_ex.context.output.error
+        if err is None and setup_ex.context.is_stuck():
+            # the path got stuck inside a nested call: the top-level context has no output,
+            # and such a path must not be taken as a successful setup path
+            err = setup_ex.context.get_stuck_reason() or "stuck path"
+
+        if err:
             opcode = setup_ex.current_opcode()
             if opcode not in [EVM.REVERT, EVM.INVALID]:
                 warn_code(
